@@ -45,6 +45,10 @@ NETWORKS = {
     "cofactor": dict(vars={"A": 2, "X": 0, "B": 2}, rxn=({"A": -1, "X": -1, "B": 1}, ["A", "X", "k"], ma2)),
     "dimer": dict(vars={"A": 1, "B": 2}, rxn=({"A": -2, "B": 1}, ["A", "k"], ma_dimer)),
     "uni3": dict(vars={"A": 3, "B": 3}, rxn=({"A": -1, "B": 1}, ["A", "k"], ma1)),
+    "merge21": dict(vars={"Q": 2, "P": 1, "R": 3}, rxn=({"Q": -1, "P": -1, "R": 1}, ["Q", "P", "k"], ma2)),
+    "split21": dict(vars={"R": 3, "T": 2, "S": 1}, rxn=({"R": -1, "T": 1, "S": 1}, ["R", "k"], ma1)),
+    "influx3": dict(vars={"A": 3}, rxn=({"A": 1}, ["k"], ma0)),
+    "gain": dict(vars={"A": 1, "B": 2}, rxn=({"A": -1, "B": 1}, ["A", "k"], ma1)),
 }
 
 
@@ -207,7 +211,8 @@ def maps_for(net, tier):
 
 def scenarios(tier, seed):
     scs = []
-    nets = ["uni", "uni12", "merge", "split", "influx", "efflux", "cofactor"] + (["uni3"] if tier != "quick" else [])
+    nets = ["uni", "uni12", "merge", "split", "influx", "efflux", "cofactor"] + (
+        ["uni3", "merge21", "split21", "influx3", "gain"] if tier != "quick" else [])
     for net in nets:
         maps, tsl = maps_for(net, tier)
         for m in maps:
